@@ -60,7 +60,8 @@ def histories(draw, tier):
     ops = draw(st.lists(st.one_of(st.just(["gb"]), st.just(["gb"]),
                                   st.tuples(st.just("group"), st.integers(0, 6)).map(list),
                                   st.tuples(st.just("group"), st.integers(0, 6)).map(list),
-                                  st.tuples(st.just("close-group"), st.integers(0, 6)).map(list)),
+                                  st.tuples(st.just("close-group"), st.integers(0, 6)).map(list),
+                                  st.just(["close-current"])),
                         min_size=draw(st.sampled_from([0, 4, 6])), max_size=15 if tier == "quick" else 25))
     return {"items": items, "key": key, "keyfl": draw(st.sampled_from(["def", "async", "obj"])),
             "fl": draw(st.sampled_from(["list", "iter", "agen", "aclass"])), "ops": ops}
@@ -85,6 +86,7 @@ def check(case):
 
     async def history():
         groups_a, groups_s = [], []
+        closed = set()
         taken_from_current = 0
         for step, op in enumerate(case["ops"]):
             if op[0] == "gb":
@@ -118,10 +120,20 @@ def check(case):
                     i = op[1] % (len(groups_a) - 1)
                     await groups_a[i].aclose()
                     flags["stale"] = True
+            elif op[0] == "close-current":
+                # ... and closing the CURRENT group (what every tool does with the iterator it was given) is just the
+                # consumer losing interest in it: the rest of its run is skipped by the next advance, as if dropped
+                if groups_a:
+                    await groups_a[-1].aclose()
+                    closed.add(len(groups_a) - 1)
+                    if taken_from_current >= 1:
+                        flags["partial"] = True
             else:
                 if not groups_a:
                     continue
                 i = op[1] % len(groups_a)
+                if i in closed:
+                    continue
                 if i != len(groups_a) - 1:
                     flags["stale"] = True
                 try:
@@ -139,8 +151,9 @@ def check(case):
                 if got != want:
                     return ("group-item-differs", f"step {step} group {i} of {len(groups_a)}: "
                             f"async={got} itertools={want}")
-                if got[0] == "raise":
+                if got[0] == "raise" and not (fault and fault[0] == "key"):
                     return None
+                # (a key function that failed for one item works again for the next: the group goes on)
                 if i == len(groups_a) - 1 and got[0] == "item":
                     taken_from_current += 1
         return None
